@@ -165,7 +165,8 @@ def run(ctx):
         wr = m.fn("metrics::recorder::with_recorder")
         if wr is not None:
             res = with_recorder_leaves(wr)
-            ok = res["n_user_calls"] == 3 and all(res["found"].values()) and res["try_load_gated"]
+            # the local leaf exists, and every other recorder the closure may receive is chosen only when no local is installed
+            ok = res["found"]["local"] is not None and all(i["none_get"] for i in res["info"] if not (i["local_payload"] and i["some_get"])) and len(res["info"]) >= 2
             chk.ob("C19.e", f"{wr.path} [local before global]", ok, "emissions go to the thread-local recorder when one is installed; the global one is consulted only otherwise" if ok else "with_recorder does not prefer the thread-local recorder: a global recorder captures metrics meant for a local debugging recorder", wr.loc())
 
 
